@@ -110,22 +110,42 @@ func init() {
 		}},
 		{"nfeLeaks", func() string {
 			// functions of package x509 (non-test files) that return the collector or a NonFatalErrors value as an error,
-			// other than the documented wrappers
+			// other than the documented wrappers and their private helpers (a helper used by parseCertificate itself, by any
+			// other function, at package level, exported or with a receiver is NOT private: it is listed)
 			allowed := map[string]bool{"parseCertificate": true, "ParseCertificate": true, "ParseTBSCertificate": true, "ParseCertificates": true, "Append": true}
 			ents, err := os.ReadDir(rp("x509"))
 			if err != nil {
 				panic(bail{err.Error()})
 			}
-			var leaks []string
+			// pass 1: which functions return the collector, and who refers to each function name
+			type fnInfo struct {
+				file     string
+				plain    bool // unexported, no receiver
+				returns  bool // returns the collector / a NonFatalErrors value as its last result
+				referers map[string]bool
+			}
+			fns := map[string]*fnInfo{}
+			var files []*ast.File
+			var names []string
 			for _, e := range ents {
 				if e.IsDir() || !strings.HasSuffix(e.Name(), ".go") || strings.HasSuffix(e.Name(), "_test.go") {
 					continue
 				}
 				f := parseFile(filepath.Join(*repo, "x509", e.Name()))
+				files = append(files, f)
 				for _, d := range f.Decls {
 					fd, ok := d.(*ast.FuncDecl)
-					if !ok || fd.Body == nil || allowed[fd.Name.Name] {
+					if !ok || fd.Body == nil {
 						continue
+					}
+					info := fns[fd.Name.Name]
+					if info == nil {
+						info = &fnInfo{file: e.Name(), plain: true, referers: map[string]bool{}}
+						fns[fd.Name.Name] = info
+						names = append(names, fd.Name.Name)
+					}
+					if fd.Recv != nil || ast.IsExported(fd.Name.Name) {
+						info.plain = false
 					}
 					ast.Inspect(fd.Body, func(n ast.Node) bool {
 						r, ok := n.(*ast.ReturnStmt)
@@ -134,14 +154,61 @@ func init() {
 						}
 						last := src(r.Results[len(r.Results)-1])
 						if last == "nfe" || last == "*nfe" || last == "&nfe" || strings.Contains(last, "NonFatalErrors{") {
-							leaks = append(leaks, strconv.Quote(e.Name()+":"+fd.Name.Name))
+							info.returns = true
 						}
 						return true
 					})
 				}
 			}
+			for _, f := range files {
+				for _, d := range f.Decls {
+					owner := "<package level>"
+					var root ast.Node = d
+					if fd, ok := d.(*ast.FuncDecl); ok {
+						if fd.Body == nil {
+							continue
+						}
+						owner, root = fd.Name.Name, fd.Body
+					}
+					ast.Inspect(root, func(n ast.Node) bool {
+						if id, ok := n.(*ast.Ident); ok {
+							if info := fns[id.Name]; info != nil && id.Name != owner {
+								info.referers[owner] = true
+							}
+						}
+						return true
+					})
+				}
+			}
+			// pass 2: an unexported plain function every reference to which sits inside a wrapper (or inside another such
+			// function) is a part of the wrappers — the collector does not leave them through it
+			for changed := true; changed; {
+				changed = false
+				for _, name := range names {
+					info := fns[name]
+					if allowed[name] || !info.returns || !info.plain || len(info.referers) == 0 {
+						continue
+					}
+					inside := true
+					for r := range info.referers {
+						if !allowed[r] || r == "parseCertificate" || r == "Append" {
+							inside = false
+						}
+					}
+					if inside {
+						allowed[name] = true
+						changed = true
+					}
+				}
+			}
+			var leaks []string
+			for _, name := range names {
+				if info := fns[name]; info.returns && !allowed[name] {
+					leaks = append(leaks, strconv.Quote(info.file+":"+name))
+				}
+			}
 			sort.Strings(leaks)
-			return fmt.Sprintf("/-- generated from x509/*.go: functions other than the certificate wrappers that return the non-fatal collector as their error -/\ndef nfeLeaks : List String :=\n  [%s]\n", strings.Join(leaks, ", "))
+			return fmt.Sprintf("/-- generated from x509/*.go: functions that return the non-fatal collector as their error, other than the certificate wrappers and unexported helpers referred to only from inside ParseCertificate / ParseTBSCertificate / ParseCertificates (or from such a helper) -/\ndef nfeLeaks : List String :=\n  [%s]\n", strings.Join(leaks, ", "))
 		}},
 		{"certListFatal", func() string {
 			f := parseFile(rp("x509/errors.go"))
